@@ -1756,3 +1756,109 @@ func fieldOfLocalRecord(t *Term) *Term {
 	}
 	return NewTB().Of(val)
 }
+
+func init() {
+	register("C17", ruleC17DoubleQuoteEscapes)
+	// under PostgresEscapingDialect the rewriter decides where a double-quoted identifier of the template ends: when it
+	// and the placeholder lexer disagree, the text of an argument closes the identifier (injection)
+	register("C16", ruleC17DoubleQuoteEscapes)
+}
+
+// ruleC17DoubleQuoteEscapes: inside "…" the rewriter pairs escapes as the placeholder lexer and the tokenizer do.
+func ruleC17DoubleQuoteEscapes(c *Ctx) {
+	c.Doc("c17.dq-escapes", "quote rewriter (DoubleQuotesToBackTick), double-quote region: the byte after a backslash is examined for both `\"` and `\\\\` (an escaped backslash is a pair: its second half escapes nothing — otherwise `\"a\\\\\\\\\"` stays open, swallows the rest of the statement up to a `\"` inside an argument's literal, and that argument rewrites the statement); the byte after a `\"` is examined for a second `\"` (a doubled delimiter is a character of the identifier, as it is for the placeholder lexer)")
+	f := c.P.Func(modPath, "DoubleQuotesToBackTick")
+	if f == nil {
+		c.Unknown("c17.dq-escapes", "DoubleQuotesToBackTick", "-", "anchor lost")
+		return
+	}
+	c.Fn("DoubleQuotesToBackTick")
+	afterBackslash, afterQuote := map[int64]bool{}, map[int64]bool{}
+	// the current byte of a region that knows backslash escapes: the values that are compared with a backslash
+	current := map[ssa.Value]bool{}
+	deepInstrs(f, func(_ *ssa.Function, _ *TB, _ *ssa.BasicBlock, in ssa.Instruction) {
+		if bo, ok := in.(*ssa.BinOp); ok && bo.Op == token.EQL {
+			if k, isK := constIntOf(bo.Y); isK && k == '\\' {
+				current[bo.X] = true
+			}
+		}
+	})
+	deepInstrs(f, func(_ *ssa.Function, tb *TB, b *ssa.BasicBlock, in ssa.Instruction) {
+		bo, ok := in.(*ssa.BinOp)
+		if !ok || (bo.Op != token.EQL && bo.Op != token.NEQ) {
+			return
+		}
+		k, isK := constIntOf(bo.Y)
+		if !isK {
+			return
+		}
+		// the byte AFTER the current one: an element of the text at position + 1
+		if xt := tb.Of(bo.X); !(xt.Op == "index" && strings.Contains(xt.Args[1].String(), "+ c:1")) {
+			return
+		}
+		for _, fc := range relFacts(factsAt(b)) {
+			if fc.r != relEQ || fc.x == bo.X || !current[fc.x] {
+				continue
+			}
+			arm, isArm := constIntOf(fc.y)
+			if !isArm {
+				continue
+			}
+			if arm == '\\' {
+				afterBackslash[k] = true
+			}
+			if arm == '"' {
+				afterQuote[k] = true
+			}
+		}
+	})
+	var why []string
+	if !afterBackslash['"'] {
+		why = append(why, "after a backslash the next byte is not tested for `\"`")
+	}
+	if !afterBackslash['\\'] {
+		why = append(why, "after a backslash the next byte is not tested for a second backslash: in `\"a\\\\\\\\\"` the closing quote is taken for an escaped one, the identifier stays open and ends at a `\"` of an argument's text")
+	}
+	if !afterQuote['"'] {
+		why = append(why, "after a `\"` the next byte is not tested for a second `\"`: `\"x\"\"y\"` is cut into two identifiers")
+	}
+	c.Check(len(why) == 0, "c17.dq-escapes", "DoubleQuotesToBackTick/\"-region", c.P.Pos(f.Pos()), "\\\" and \\\\ are pairs, \"\" is a doubled delimiter", strings.Join(why, "; "))
+}
+
+func init() {
+	register("C17", ruleC17CommentStates)
+	register("C16", ruleC17CommentStates)
+}
+
+// ruleC17CommentStates: the option rewriters do not read quote characters inside comments.
+func ruleC17CommentStates(c *Ctx) {
+	c.Doc("c17.comment-states", "both option rewriters (DoubleQuotesToBackTick, FindArrayIndex — the scanner behind FixIdiomaticArray) recognise, outside quotes, the characters that start a comment for the tokenizer and the placeholder lexer (`#`, `--`, `//`, `/*`): a quote or bracket inside a comment must not open a quoted region — `SELECT /* don't */ \"a\" FROM \"t\"` left the identifiers unconverted (silently wrong rows), and a `'` in a comment of a template made the rewriter treat a sanitized argument's literal as SQL (its `[1]` became ARRAY(1), its double quotes backticks)")
+	for _, name := range []string{"DoubleQuotesToBackTick", "FindArrayIndex"} {
+		f := c.P.Func(modPath, name)
+		if f == nil {
+			c.Unknown("c17.comment-states", name, "-", "anchor lost")
+			continue
+		}
+		c.Fn(name)
+		// bytes of the text compared with constants, the scanner's helpers included
+		got := map[int64]bool{}
+		deepInstrs(f, func(_ *ssa.Function, tb *TB, _ *ssa.BasicBlock, in ssa.Instruction) {
+			bo, ok := in.(*ssa.BinOp)
+			if !ok || (bo.Op != token.EQL && bo.Op != token.NEQ) {
+				return
+			}
+			for _, pr := range [][2]ssa.Value{{bo.X, bo.Y}, {bo.Y, bo.X}} {
+				if k, isK := constIntOf(pr[1]); isK {
+					got[k] = true
+				}
+			}
+		})
+		var missing []string
+		for _, k := range []int64{'#', '-', '/', '*'} {
+			if !got[k] {
+				missing = append(missing, fmt.Sprintf("%q", rune(k)))
+			}
+		}
+		c.Check(len(missing) == 0, "c17.comment-states", name, c.P.Pos(f.Pos()), "the comment starters #, --, //, /* are recognised outside quotes", "the scanner never looks for "+strings.Join(missing, ", ")+": it has no comment state, so a quote, backtick or bracket inside a comment opens a region that swallows the SQL (or the sanitized literal) behind it")
+	}
+}
